@@ -81,7 +81,7 @@ impl Scenario for Conform {
         "case = conforming multi-link stream from the upstream model (swarm: 1-12 links, merge order, \
          barrels, formats 0/2, RDH v6/v7, pages, continuation, no-data TDHs, internal/physics triggers, \
          CDWs, padding, status bits, ALPIDE content in stave mode; some cases force 99/100/101/200 packets, 1 in 25 \
-         has 13-24 links, 1 in 20 pages filled to exactly 507/508/509 words, a full 8 KiB page and the 10 000-byte limit) \
+         has 13-24 links, 1 in 15 of the check all / check all its cases two FEE IDs on one link number stored one after the other, 1 in 20 pages filled to exactly 507/508/509 words, a full 8 KiB page and the 10 000-byte limit) \
          x one of the five check modes x {plain,-m,-E n,-S} x {file,pipe} x seeded schedule policy x \
          queue-capacity cap x benign I/O faults. Non-trivial: >= 4 managed threads ran (reader, analysis, \
          >= 1 validator, collector). Distinct: (input hash, schedule trace hash)."
@@ -109,7 +109,14 @@ impl Scenario for Conform {
             cfg.triggers = (1, 2);
         }
         let mut shape = "";
-        if force_count.is_none() && rng.chance(1, 25) {
+        if force_count.is_none() && (mode_i == 2 || mode_i == 3) && rng.chance(1, 15) {
+            // two front-ends on one link number (link numbers count per CRU end point), their data stored one after
+            // the other: the FEE ID changes between two heartbeat frames of that link number, never inside one
+            cfg.share_link_ids = true;
+            cfg.merge = itsgen::gen::Merge::Contiguous;
+            cfg.n_links = rng.range(2, 6) as usize;
+            shape = " link-number-shared-by-two-FEE-IDs";
+        } else if force_count.is_none() && rng.chance(1, 25) {
             // more links (FEE IDs in stave mode) than any sample has: 13..24 validators
             cfg.n_links = rng.range(13, 24) as usize;
             cfg.hbfs = (1, 2);
